@@ -12,8 +12,9 @@ from ..ropt_util import TableEvaluator, ensemble_evaluator, outcome_of, plugin_m
 INF = float("inf")
 
 
-def build(sc: dict):
-    """Scenario -> (config, objective matrix, constraint matrix, ranked column kind/index)."""
+def build(sc: dict, lead: int = 0):
+    """Scenario -> (config, objective matrix, constraint matrix, ranked column kind/index).
+    lead: number of configured but unreferenced filters in front of the CVaR filter."""
     n = sc["n"]
     val = np.array(sc["val"], dtype=np.float64)
     o2 = np.array(sc["o2"], dtype=np.float64)
@@ -48,7 +49,26 @@ def build(sc: dict):
                                         "realization_filters": [-1, 0]}
         cfg["realization_filters"] = [{"method": "cvar-constraint", "options": {"sort": 1, "percentile": p}}]
         col = ("con", 1)
+    if lead:
+        unused = [{"method": "sort-objective", "options": {"sort": [0], "first": 0, "last": 0}},
+                  {"method": "cvar-objective", "options": {"sort": [0], "percentile": 0.5}}][:lead]
+        cfg["realization_filters"] = unused + cfg["realization_filters"]
+        for sect in ("objectives", "nonlinear_constraints"):
+            if sect in cfg and "realization_filters" in cfg[sect]:
+                cfg[sect]["realization_filters"] = [i + lead if i >= 0 else i for i in cfg[sect]["realization_filters"]]
     return EnOptConfig.model_validate(cfg), objs, cons, failed, col
+
+
+class _WarmTable(TableEvaluator):
+    """First call: every realization succeeds with other values; afterwards the prescribed table."""
+
+    def __init__(self, objs, cons, clean_objs, clean_cons):
+        super().__init__(objs, cons)
+        self._table, self._clean = (self.objs, self.cons), (np.asarray(clean_objs), None if clean_cons is None else np.asarray(clean_cons))
+
+    def __call__(self, variables, context):
+        self.objs, self.cons = self._clean if not self.calls else self._table
+        return super().__call__(variables, context)
 
 
 def drive(sc: dict):
@@ -61,6 +81,8 @@ def drive(sc: dict):
     if c is not None:
         c[failed, :] = np.nan
     flt = plugin_manager().get_plugin("realization_filter", method=config.realization_filters[0].method).create(config, 0)
+    # the same filter object has been used before, on an ensemble without failures and in reverse order
+    outcome_of(lambda: flt.get_realization_weights(-objs[::-1].copy(), None if cons is None else -cons[::-1].copy()))
     w, outcome = outcome_of(lambda: flt.get_realization_weights(o, c))
     trace.append({**base, "ev": "CVaR", "via": "direct", "outcome": outcome,
                   "w": nums(w) if w is not None else [], "value": num(None)})
@@ -84,6 +106,25 @@ def drive(sc: dict):
         else:
             value = (r.functions.objectives if col[0] == "obj" else r.functions.constraints)[col[1]]
     trace.append({**base, "ev": "CVaR", "via": "e2e", "outcome": outcome,
+                  "w": nums(w) if w is not None else [], "value": num(value)})
+    # -- the same, as the second evaluation of one evaluator object (the first one without failures, other values),
+    #    with configured but unreferenced filters in front of the CVaR filter
+    lead = 1 + (sc["n"] + sc["k"]) % 2
+    config2, *_ = build(sc, lead=lead)
+    ev2 = _WarmTable(o, c, -objs[::-1].copy(), None if cons is None else -cons[::-1].copy())
+    ee = ensemble_evaluator(config2, ev2)
+    outcome_of(lambda: ee.calculate(np.ones(2), compute_functions=True, compute_gradients=False))
+    res, outcome = outcome_of(lambda: ee.calculate(np.zeros(2), compute_functions=True, compute_gradients=False))
+    w = value = None
+    if res is not None:
+        r = res[0]
+        rows = r.realizations.objective_weights if col[0] == "obj" else r.realizations.constraint_weights
+        w = None if rows is None else rows[col[1]]
+        if r.functions is None:
+            outcome = "nofunctions"
+        else:
+            value = (r.functions.objectives if col[0] == "obj" else r.functions.constraints)[col[1]]
+    trace.append({**base, "ev": "CVaR", "via": "e2e", "outcome": outcome, "second_use": True, "unused_filters_in_front": lead,
                   "w": nums(w) if w is not None else [], "value": num(value)})
     nsucc = int((~failed).sum())
     kn = sc["k"] * nsucc
